@@ -44,6 +44,20 @@ def main():
             failures.append(('T00', 'expected refutations %r, got %r\n%s' % (sorted(T00_engine.EXPECTED_REFUTED),
                                                                               sorted(got), out[-1500:])))
         print('T00 engine self-test:', 'ok' if not failures else 'FAILED')
+    # 1b. models and interpreter against CPython
+    if not args.only:
+        p = subprocess.run([sys.executable, '-m', 'pyvc.modelcheck', '3'], cwd=VERIF, capture_output=True, text=True)
+        print(p.stdout.strip().splitlines()[0] if p.stdout.strip() else p.stderr[-300:])
+        if p.returncode != 0:
+            failures.append(('modelcheck', p.stdout[-1500:]))
+        import glob
+        props = sorted({os.path.basename(f)[:3] for f in glob.glob(os.path.join(VERIF, 'contracts', 'C[0-9][0-9]*.py'))})
+        for pr in props:
+            p = subprocess.run([sys.executable, '-m', 'pyvc.crosscheck', pr], cwd=VERIF, capture_output=True, text=True)
+            line = [l for l in p.stdout.splitlines() if l.startswith('interpreter cross-check')]
+            print(line[0] if line else p.stderr[-300:])
+            if p.returncode != 0:
+                failures.append(('crosscheck ' + pr, p.stdout[-1500:]))
     # 2. mutants
     sys.path.insert(0, os.path.join(VERIF, 'selftest'))
     import mutants
